@@ -387,3 +387,8 @@ MUTANTS.setdefault('C10', []).extend([
 MUTANTS.setdefault('C06', []).extend([
     ('pt-create-open-without-nofollow', 'src/passthrough/mod.rs', "let flags_excl = flags | libc::O_CREAT | libc::O_EXCL | libc::O_NOFOLLOW;", "let flags_excl = flags | libc::O_CREAT | libc::O_EXCL;"),
 ])
+
+# the passthrough core (unit ptcore: import / new / destroy, inode and handle objects, the re-open through /proc, statx, readlinkat) and the D31 repair
+from vx import ptcore_mutants_proposed as _PC
+for _k, _v in _PC.MUTANTS.items():
+    MUTANTS.setdefault(_k, []).extend(_v)
